@@ -7,6 +7,7 @@ from pyvc.vtypes import Real, Int, Bool, Id, Ref, Opt, Seq, Tup, Mat, Map, IdSor
 from pyvc import heaplib as H
 from .events import qinv, bag, bag_same_except, TSA, P
 from .network import net_wf, occ, station_known
+from .feasibility import net_shapes
 
 S = "acnportal.acnsim.simulator.Simulator."
 
@@ -171,7 +172,7 @@ def run_pre(s):
         ("history_entries_live", AllIdx(0, h.len, lambda j: And(h[j].ref != 0, s.alloc_ref(h[j].ref)))),
         ("shapes", And(sim.pilot_signals.rows == sim.network._EVSEs.keys.len, sim.charging_rates.rows == sim.network._EVSEs.keys.len,
                        sim.network._voltages.len == sim.network._EVSEs.keys.len, sim.network.magnitudes.len == sim.network.constraint_index.len,
-                       sim._iteration >= 0)),
+                       sim._iteration >= 0, net_shapes(s, sim.network))),
         ("occupants_own_valid_batteries", occupants_wf(s, sim.network)),
     ]
 
@@ -373,13 +374,15 @@ REG.contract(
               C("shapes", lambda s: And(s.self.pilot_signals.rows == s.self.network._EVSEs.keys.len, s.self.pilot_signals.cols >= 0,
                                         s.self._iteration >= 0)),
               C("lists", lambda s: FA([z3.Const("uk!l", IdSort)], sched_len_at(s.new_schedule, z3.Const("uk!l", IdSort)) >= 0)),
-              C("aligned_shapes", lambda s: And(s.self.network.magnitudes.len == s.self.network.constraint_index.len))],
+              C("aligned_shapes", lambda s: net_shapes(s, s.self.network))],
     raises=[RaiseSpec("KeyError", lambda s: And(s.new_schedule.keys.len > 0, Not(all_known(s, s.self, s.new_schedule))), iff=True, unchanged=True),
             RaiseSpec("InvalidScheduleError", lambda s: And(s.new_schedule.keys.len > 0, all_known(s, s.self, s.new_schedule),
                                                              Not(equal_lengths(s.new_schedule))), iff=True, unchanged=True)],
     modifies=[("Simulator.pilot_signals", lambda s: [s.self]), "warnings"],
     ensures=[C("C04.overlay", _us_post, props=("C04",))],
     loops={0: LoopSpec(invariant=lambda s: [("prefix_known", AllIdx(0, s._k, lambda i: s.self.network._EVSEs.has(s.new_schedule.keys[i])))])},
+    # of the feasibility check only two structural facts matter here (the verdict merely decides whether a warning is issued)
+    extra=dict(callee_views={"acnportal.acnsim.network.charging_network.ChargingNetwork.is_feasible": ("C06.no_constraints", "C06.no_periods")}),
 )
 def mat_cells(f, rows, cols, name="m"):
     """forall 0 <= i < rows, 0 <= j < cols. f(i, j)"""
